@@ -48,6 +48,16 @@ func (t *Telnet) handleControlCharResponse(ctrlBuf []byte, c byte) ([]byte, erro
 		}
 	} else if len(ctrlBuf) == 1 && util.ByteIsAny(c, []byte{do, dont, will, wont}) {
 		ctrlBuf = append(ctrlBuf, c)
+	} else if len(ctrlBuf) == 1 {
+		// IAC followed by something that is not an option negotiation verb: an escaped 0xff data
+		// byte (IAC IAC) or a two byte command (NOP, GA, ...). neither is followed by an option
+		// byte, so we are done with this sequence -- staying in the "seen IAC" state would swallow
+		// every following data byte until the next verb shows up.
+		if c == iac {
+			t.initialBuf = append(t.initialBuf, c)
+		}
+
+		ctrlBuf = make([]byte, 0)
 	} else if len(ctrlBuf) == 2 { //nolint:mnd
 		cmd := ctrlBuf[1:2][0]
 		ctrlBuf = make([]byte, 0)
